@@ -222,6 +222,38 @@ class Gen:
         return None
 
 
+class Deferred(AnalysisError):
+    """the generator is outside the symbolic analysis but is decided on the concrete grid"""
+    def __init__(self, gname, why):
+        super().__init__(f"{gname}: {why}")
+        self.gname, self.why = gname, why
+
+
+def gen_or_defer(r, A, gname, kinds=(None,)):
+    try:
+        return A.gen(gname, kinds)
+    except Deferred as d:
+        r.ok(A.m, gname, f"{gname}: decided on the concrete grid", nontrivial=False,
+             note=f"the induction analysis does not follow this generator ({d.why[:80]}); R-C06-grid evaluates it for every "
+                  f"grid shape and judges the emitted code")
+        r.deferred = getattr(r, 'deferred', 0) + 1
+        return None
+
+
+def grid_fields(shape):
+    from collections import OrderedDict
+    return OrderedDict([('x', U.Shape('bits', width=3)), ('f', shape), ('z', U.Shape('bits', width=1))])
+
+
+def grid_run(m, gname, fields, total):
+    """the generated functions (dicts name/args/body) and other results of a generator for a concrete field table"""
+    fdef = m.get_func(gname)
+    params = [a.arg for a in fdef.args.args]
+    extra = {p_: Lin(total) for p_ in params[1:]} if gname == '_mk_from_bits_fns' else None
+    items, cev = U.eval_concrete(m, fdef, fields, extra=extra)
+    return items
+
+
 class Analysis:
     def __init__(self, repo):
         self.repo = repo
@@ -232,8 +264,39 @@ class Analysis:
     def gen(self, name, kinds=(None,)):
         g = self._gens.get(name)
         if g is None:
-            g = self._gens[name] = Gen(self, name, kinds)
+            try:
+                g = Gen(self, name, kinds)
+            except AnalysisError as ex:
+                # a generator the symbolic (induction) analysis cannot follow -- e.g. an iterative one: if it can be
+                # evaluated for every shape of the grid, the clauses are decided there (R-C06-grid) instead
+                g = Deferred(name, str(ex)) if name in GEN_SPEC and self.concrete_ok(name) else ex
+            self._gens[name] = g
+        if isinstance(g, Exception):
+            raise g
         return g
+
+    def concrete_ok(self, name):
+        from collections import OrderedDict
+        try:
+            for shape in grid_shapes():
+                grid_run(self.m, name, grid_fields(shape), 0)
+            return True
+        except AnalysisError:
+            return False
+
+    def stub(self, name):
+        """names / kinds of the results of a deferred generator (from its evaluation on a grid shape)"""
+        items = grid_run(self.m, name, grid_fields(grid_shapes()[0]), 8)
+        comps = tuple(Fn(Const(it['name']), SeqV(()), SeqV(()), Const(None)) if isinstance(it, dict) else Lin(0) for it in items)
+        fdef = self.m.get_func(name)
+
+        class Stub:
+            pass
+        st = Stub()
+        st.name, st.fdef = name, fdef
+        st.top = comps[0] if len(comps) == 1 else Tup(comps)
+        st.fields_sym = lambda: Sym(fdef.args.args[0].arg)
+        return st
 
     def helper(self, fobj):
         h = self._helpers.get(id(fobj.fdef))
@@ -242,7 +305,7 @@ class Analysis:
         return h
 
     def steps(self):
-        return sum(g.steps for g in self._gens.values()) + sum(h.steps for h in self._helpers.values())
+        return sum(getattr(g, 'steps', 0) for g in self._gens.values()) + sum(h.steps for h in self._helpers.values())
 
 
 def analysis(repo):
@@ -275,7 +338,7 @@ def gen_sites(g, v):
 def floor(r, n):
     """exact instance count of today's tree; enforced when the rule is otherwise clean (a rule that already
     reports a violation keeps exit status 1 instead of degrading to an analysis error)"""
-    if r.findings:
+    if r.findings or getattr(r, 'deferred', 0):
         r.floor = n
     else:
         r.require_floor(n)
@@ -419,7 +482,9 @@ def rule_traversal(repo):
     m = A.m
     seen_helpers = set()
     for gname, spec in GEN_SPEC.items():
-        g = A.gen(gname)
+        g = gen_or_defer(r, A, gname)
+        if g is None:
+            continue
         extra_generator_paths(r, m, g)
         h = the_helper(g)
         fields = g.fields_sym()
@@ -877,7 +942,9 @@ def rule_leaf(repo):
     A = analysis(repo)
     m = A.m
     for gname in ('_mk_imatmul_fn', '_mk_ff_fn', '_mk_clone_fn', '_mk_deepcopy_fn', '_mk_nbits_to_bits_fn'):
-        g = A.gen(gname)
+        g = gen_or_defer(r, A, gname)
+        if g is None:
+            continue
         h = the_helper(g)
         L, rec = top_visit(g, h)
         key = field_key_value(L)
@@ -958,7 +1025,8 @@ def rule_leaf(repo):
                 r.bad(m, gname, cons, '; '.join(pr), g.fdef.lineno)
             else:
                 r.ok(m, gname, cons)
-    _from_bits_leaf(r, A)
+    if gen_or_defer(r, A, '_mk_from_bits_fns') is not None:
+        _from_bits_leaf(r, A)
     r.evaluations = A.steps()
     floor(r, 23)
     return r
@@ -1238,6 +1306,8 @@ def rule_width(repo):
                    "counter is threaded through every recursive call; every element yields exactly one constructor argument")
     A = analysis(repo)
     m = A.m
+    if any(gen_or_defer(r, A, gn_) is None for gn_ in ('_mk_nbits_to_bits_fn', '_mk_from_bits_fns')):
+        return r            # absolute bit positions and nbits of every grid shape are judged by R-C06-grid
     # ---- to_bits
     g, h, ci, si = to_bits_parts(A)
     top = g.top
@@ -1373,6 +1443,8 @@ def rule_mirror(repo):
                    "list elements <-> reversed list literal, same width source, from_bits starts at the total to_bits computed")
     A = analysis(repo)
     m = A.m
+    if any(gen_or_defer(r, A, gn_) is None for gn_ in ('_mk_nbits_to_bits_fn', '_mk_from_bits_fns')):
+        return r            # to_bits / from_bits are compared with one absolute layout per grid shape by R-C06-grid
     gt, ht, cti, sti = to_bits_parts(A)
     gf, hf, cfi, sfi = from_bits_parts(A)
     Lt, rect = top_visit(gt, ht)
@@ -2117,7 +2189,10 @@ def rule_wiring(repo):
         if gn != gname:
             pr.append(f"cls.{attr} is produced by {gn}, must be {gname}")
         else:
-            g = A.gen(gname, KINDS if gname == '_mk_init_fn' else (None,))
+            try:
+                g = A.gen(gname, KINDS if gname == '_mk_init_fn' else (None,))
+            except Deferred:
+                g = A.stub(gname)
             top = g.top
             comp = top
             if isinstance(top, Tup):
@@ -2565,32 +2640,43 @@ def rule_grid(repo):
         total_gen = None
         for gname in ('_mk_imatmul_fn', '_mk_ff_fn', '_mk_clone_fn', '_mk_deepcopy_fn', '_mk_nbits_to_bits_fn',
                       '_mk_from_bits_fns'):
-            g = A.gen(gname)
-            fs = g.fields_sym()
-            if fs is None:
-                raise AnalysisError(f"{gname} does not iterate its field table")
-            extra = []
-            for val in g.ev.final_env.vars.values():
-                if isinstance(val, U.V):
-                    extra += [x for x in U.walk_values(val) if isinstance(x, Fold) and x not in extra]
-            conc = U.Concretiser({h.name: h for h in g.helpers.values()}, folds=extra)
-            conc.module = m
-            env = {fs: fields}
-            if gname == '_mk_from_bits_fns':
-                others = [p_ for p_ in g.params if Sym(p_) != fs]
-                env[Sym(others[0])] = total_gen if total_gen is not None else total_spec
             try:
-                res = conc.with_folds(g.top, env)
-            except AnalysisError as ex:
-                # the induction rules judge this generator; the grid only has to decide when they deferred to it
-                if generator_defers_to_grid(g):
-                    raise
-                r.ok(m, gname, f"{gname} for f: {shape!r}", nontrivial=False, note=f"not decided on the grid: {ex}")
-                if str(ex) not in ' '.join(r.observations):
-                    r.observations.append(f"{gname}: not unfolded on the grid ({ex}); judged by the induction rules only")
-                continue
-            r.evaluations += conc.steps
-            items = res if isinstance(res, tuple) else (res,)
+                items = grid_run(m, gname, fields, total_gen if total_gen is not None else total_spec)
+                r.evaluations += 1
+            except AnalysisError as ex1:
+                # fallback: unfold the symbolic result of the induction analysis for this shape
+                try:
+                    g = A.gen(gname)
+                    fs = g.fields_sym()
+                    if fs is None:
+                        raise AnalysisError(f"{gname} does not iterate its field table")
+                    extra = []
+                    for val in g.ev.final_env.vars.values():
+                        if isinstance(val, U.V):
+                            extra += [x for x in U.walk_values(val) if isinstance(x, Fold) and x not in extra]
+                    conc = U.Concretiser({h.name: h for h in g.helpers.values()}, folds=extra)
+                    conc.module = m
+                    env = {fs: fields}
+                    if gname == '_mk_from_bits_fns':
+                        others = [p_ for p_ in g.params if Sym(p_) != fs]
+                        env[Sym(others[0])] = total_gen if total_gen is not None else total_spec
+                    res = conc.with_folds(g.top, env)
+                    r.evaluations += conc.steps
+                    items = res if isinstance(res, tuple) else (res,)
+                except AnalysisError as ex:
+                    # the induction rules judge this generator; the grid only has to decide when they deferred to it
+                    deferred = isinstance(ex, Deferred)
+                    if not deferred:
+                        try:
+                            deferred = generator_defers_to_grid(A.gen(gname))
+                        except AnalysisError:
+                            deferred = True
+                    if deferred:
+                        raise AnalysisError(f"R-C06-grid cannot evaluate {gname} for f: {shape!r}: {ex1}")
+                    r.ok(m, gname, f"{gname} for f: {shape!r}", nontrivial=False, note=f"not decided on the grid: {ex1}")
+                    if str(ex1) not in ' '.join(r.observations):
+                        r.observations.append(f"{gname}: not evaluated on the grid ({ex1}); judged by the induction rules only")
+                    continue
             for it in items:
                 if not isinstance(it, dict):
                     if gname == '_mk_nbits_to_bits_fn':
@@ -2600,7 +2686,7 @@ def rule_grid(repo):
                             r.ok(m, gname, cons)
                         else:
                             r.bad(m, gname, cons, f"for fields (x: Bits3, f: {shape!r}, z: Bits1) the generated nbits is {it}, "
-                                  f"the sum of the leaf widths is {total_spec}", g.fdef.lineno)
+                                  f"the sum of the leaf widths is {total_spec}", m.get_func(gname).lineno)
                     continue
                 fname = it['name']
                 src = f"def {fname}({', '.join(it['args'])}):\n" + '\n'.join('  ' + b for b in it['body'])
@@ -2608,12 +2694,12 @@ def rule_grid(repo):
                 try:
                     fd = ast.parse(src).body[0]
                 except SyntaxError as ex:
-                    r.bad(m, gname, cons, f"the generated source does not compile: {ex.msg}: {src[:200]!r}", g.fdef.lineno)
+                    r.bad(m, gname, cons, f"the generated source does not compile: {ex.msg}: {src[:200]!r}", m.get_func(gname).lineno)
                     continue
                 acts = U.emitted_actions(fd)
                 msg = _judge_emitted(fname, acts, delegate, packed, fields, total_spec, Counter)
                 if msg:
-                    r.bad(m, gname, cons, f"for fields (x: Bits3, f: {shape!r}, z: Bits1): " + msg, g.fdef.lineno)
+                    r.bad(m, gname, cons, f"for fields (x: Bits3, f: {shape!r}, z: Bits1): " + msg, m.get_func(gname).lineno)
                 else:
                     r.ok(m, gname, cons)
     floor(r, 104)
@@ -2756,8 +2842,12 @@ def rule_fresh(repo):
     A = analysis(repo)
     m = A.m
     # --- from_bits
-    g, h, ci, si = from_bits_parts(A)
-    for hv in h.variants():
+    if gen_or_defer(r, A, '_mk_from_bits_fns') is not None:
+        g, h, ci, si = from_bits_parts(A)
+        fb_variants = h.variants()
+    else:
+        fb_variants = []
+    for hv in fb_variants:
         for kind, allowed, what in (('bits', ('slice', 'constructor-call'), 'Bits leaf'),
                                     ('struct', ('constructor-call',), 'nested struct'),
                                     ('list', ('list-literal',), 'list')):
@@ -2777,9 +2867,9 @@ def rule_fresh(repo):
                 r.bad(m, hv.where, f"{cons}: {show(t)[:80]}", f"from_bits obtains a {what} by `{src}` ({cls_}): the value stored "
                       f"in the new struct may be the very object it was read from (aliasing in both directions)", h.fdef.lineno)
     # --- clone / deepcopy
-    gc = A.gen('_mk_clone_fn')
-    hc = the_helper(gc)
-    for hv in hc.variants(('bits', 'struct')):
+    gc = gen_or_defer(r, A, '_mk_clone_fn')
+    hc = the_helper(gc) if gc is not None else None
+    for hv in (hc.variants(('bits', 'struct')) if hc is not None else []):
         for kind in ('bits', 'struct'):
             if hv.label and not hv.label.startswith(f" [{kind} "):
                 continue
@@ -3199,6 +3289,8 @@ MUTANTS = [
        "return f'{self_name}.{name} = {name} if {name}.__class__ is _type_{name} else _type_{name}({name})'", 'R-C06'),
     _m('init-struct-default-in-signature', "    return f'{name} = None'\n  return f'{name} = 0'",
        "    return f'{name} = None' if isinstance( type_, list ) else f'{name} = _type_{name}()'\n  return f'{name} = 0'", 'R-C06'),
+    # --- eighth seeding round: iterative generator, accumulator reset inside the loop over the rows
+    _m('imatmul-iterative-last-row-only', '    if isinstance( type_, list ):\n      ret = []\n      for i in range(len(type_)):\n        ret.extend( _gen_list_imatmul_strs( type_[0], f"{prefix}[{i}]" ) )\n      return ret\n    else:\n      return [ f"self.{prefix} @= other.{prefix}" ]\n', '    prefixes = [ prefix ]\n    while isinstance( type_, list ):\n      for p in prefixes:\n        expanded = []\n        expanded.extend( f"{p}[{i}]" for i in range(len(type_)) )\n      prefixes, type_ = expanded, type_[0]\n    return [ f"self.{p} @= other.{p}" for p in prefixes ]\n', 'R-C06-grid'),
     # --- fifth seeding round
     _m('from-bits-rows-not-reversed', '''        from_strs.extend( fs )
       return end_bit, [ f"[{','.join(reversed(from_strs))}]" ]''', '''        from_strs.extend( fs )
@@ -3375,6 +3467,7 @@ EQUIV = [
     dict(name='ilshift-direct-unpack-row-major', rule=None, edits=[
         dict(file=BS, old='import functools\nimport keyword', new='import functools\nimport itertools\nimport keyword', count=1),
         dict(file=BS, old="  ilshift_strs = [ 'if self.__class__ is not other.__class__:',\n                   '  other = self.__class__.from_bits( other.to_bits() )']\n  flip_strs = []\n", new='  bits_strs, nbits = [], 0\n  for name, type_ in reversed( fields.items() ):\n    leaf, dims = _recursive_check_array_types( type_ ) if isinstance( type_, list ) else ( type_, [] )\n    for idx in itertools.product( *map( range, dims ) ):\n      pos, stride = 0, 1\n      for i, d in zip( reversed( idx ), reversed( dims ) ):\n        pos, stride = pos + i*stride, stride*d\n      lo = nbits + pos*leaf.nbits\n      bits_strs.append( f"  self.{name}{\'\'.join( f\'[{i}]\' for i in idx )} <<= other[{lo}:{lo+leaf.nbits}]" )\n    nbits += leaf.nbits * functools.reduce( operator.mul, dims, 1 )\n\n  ilshift_strs = [ \'if self.__class__ is not other.__class__:\',\n                   \'  other = other.to_bits()\',\n                  f\'  assert other.nbits == {nbits}, "bitwidth mismatch between LHS bitstruct and RHS"\',\n                   *bits_strs, \'  return self\' ]\n  flip_strs = []\n', count=1)]),
+    _m('imatmul-iterative-over-dimensions', '    if isinstance( type_, list ):\n      ret = []\n      for i in range(len(type_)):\n        ret.extend( _gen_list_imatmul_strs( type_[0], f"{prefix}[{i}]" ) )\n      return ret\n    else:\n      return [ f"self.{prefix} @= other.{prefix}" ]\n', '    prefixes = [ prefix ]\n    while isinstance( type_, list ):\n      expanded = []\n      for p in prefixes:\n        expanded.extend( f"{p}[{i}]" for i in range(len(type_)) )\n      prefixes, type_ = expanded, type_[0]\n    return [ f"self.{p} @= other.{p}" for p in prefixes ]\n'),
     _m('from-bits-list-reverse-in-place', """      return end_bit, [ f"[{','.join(reversed(from_strs))}]" ]""",
        """      from_strs.reverse()
       return end_bit, [ f"[{','.join(from_strs)}]" ]"""),
